@@ -1024,11 +1024,9 @@ func (s *SwapService) lockSwap(swapId, channelId string, fsm *SwapStateMachine) 
 	// channel id is written with 'x' by CLN and on the wire and with ':' by
 	// LND, so compare the normalized form.
 	normalizedChannelId := lightning.Scid(channelId).ClnStyle()
-	for id, swap := range s.activeSwaps {
-		if lightning.Scid(swap.Data.GetScid()).ClnStyle() == normalizedChannelId {
-			return ActiveSwapError{channelId: channelId, swapId: id}
-		}
-	}
+	// The channel every active swap was locked with is kept in activeChannels.
+	// The data of the other swaps is not consulted here: it is owned by their
+	// state machines and may be written concurrently.
 	for id, lockedChannelId := range s.activeChannels {
 		if lockedChannelId == normalizedChannelId {
 			return ActiveSwapError{channelId: channelId, swapId: id}
